@@ -51,6 +51,14 @@ M = [
      '            self.proc.interrupt("restart timer")\n            self.proc = self.env.process(self.run(self.env))\n',
      '            self.proc.interrupt("restart timer")\n        self.proc = self.env.process(self.run(self.env))\n',
      '`restart` starts a new process also when the old one is dead'),
+    ('C13', 'reverse-false', SP, 'key=lambda item: item[1], reverse=True)', 'key=lambda item: item[1], reverse=False)', '`reverse=False`: least urgent first'),
+    ('C13', 'key-flow-id', SP, 'key=lambda item: item[1], reverse=True)', 'key=lambda item: item[0], reverse=True)', 'the table is ordered by flow id'),
+    ('C13', 'prio-ge-0', SP, '                if prio > 0:\n', '                if prio >= 0:\n', '`prio > 0` -> `prio >= 0`'),
+    ('C13', 'no-break', SP, '                    # Rescan from the highest priority: a more urgent packet\n                    # may be waiting by now.\n                    break\n', '',
+     'no `break`: one packet per class per pass instead of a rescan from the top'),
+    ('C13', 'no-empty-test', SP, '                    if store.size() == 0:\n                        continue\n', '',
+     'the emptiness test is gone: the server waits on the most urgent store'),
+    ('C13', 'wait-le-1', SP, '            if self.total_packets == 0:\n', '            if self.total_packets <= 1:\n', 'end of pass: waits although one packet is queued'),
 ]
 
 
